@@ -4,8 +4,8 @@
 out=$1; shift
 for s in "$@"; do
   for c in C01 C02 C03 C04 C05 C06 C07 C08 C09 C10 C11 C12 C13 C14 C15 C16 C17 C18 C19 C20; do
-    VERIF_OUT=/tmp/soak_out_$s python3 check.py $c --tier quick --seed $s > /tmp/soak_$c_$s.log 2>&1; rc=$?
-    echo "seed=$s $c rc=$rc $(grep -E '^(VIOLATION|INCONCLUSIVE|HARNESS)' /tmp/soak_$c_$s.log | head -3 | tr '\n' ' ' | cut -c1-300) | $(tail -1 /tmp/soak_$c_$s.log | cut -c1-160)" >> $out
+    VERIF_OUT=/tmp/soak_out_$s python3 check.py $c --tier quick --seed $s > /tmp/soak_${c}_${s}.log 2>&1; rc=$?
+    echo "seed=$s $c rc=$rc $(grep -E '^(VIOLATION|INCONCLUSIVE|HARNESS)' /tmp/soak_${c}_${s}.log | head -3 | tr '\n' ' ' | cut -c1-300) | $(tail -1 /tmp/soak_${c}_${s}.log | cut -c1-160)" >> $out
   done
   rm -rf /tmp/soak_out_$s
 done
